@@ -537,7 +537,8 @@ def install(choice_sets=False):
 
     for modname in ("classy_blocks.construct.curves.discrete", "classy_blocks.construct.curves.curve",
                     "classy_blocks.construct.curves.interpolated", "classy_blocks.construct.curves.analytic",
-                    "classy_blocks.construct.curves.interpolators"):
+                    "classy_blocks.construct.curves.interpolators", "classy_blocks.construct.flat.sketches.disk",
+                    "classy_blocks.construct.flat.sketches.annulus", "classy_blocks.construct.flat.sketches.spline_round"):
         mod = sys.modules.get(modname)
         if mod is not None:
             mod.float = _float
